@@ -1089,3 +1089,90 @@ func verif_C11_case_equiv() {
 	verifAssert(len(ref.bodies) == 2 && len(got.bodies) == 2 && ref.bodies[0] == got.bodies[0] && ref.bodies[1] == got.bodies[1], "C11.case-same-messages")
 	verifReach("C11.case-end")
 }
+
+// verif_C11_mail_twice: "every unset field left at its zero value" also for
+// the SECOND MAIL on a connection when nothing reset the transaction in
+// between: the first MAIL carries one or two parameters and is accepted or
+// refused by the backend (451) or refused for a third, unknown parameter; the
+// second MAIL carries none (or one other): the backend's second Mail call gets
+// exactly the second line's options.
+func verif_C11_mail_twice() {
+	params := []string{"SIZE=10", "BODY=8BITMIME", "SMTPUTF8", "RET=HDRS", "ENVID=x", "AUTH=<>", "BODY=BINARYMIME"}
+	p1 := verifChoice(len(params))
+	p2 := verifChoice(len(params) + 1) // == len: none
+	first := "MAIL FROM:<one@v> " + params[p1]
+	if p2 < len(params) && p2 != p1 {
+		first += " " + params[p2]
+	}
+	how := verifChoice(3) // 0 accepted, 1 refused by the backend, 2 refused for an unknown parameter
+	if how == 2 {
+		first += " FROBNICATE=1"
+	}
+	second := "MAIL FROM:<two@v>"
+	p3 := verifChoice(len(params) + 1)
+	if p3 < len(params) {
+		second += " " + params[p3]
+	}
+	be := &vbackend{}
+	if how == 1 {
+		be.mailErr = func(from string) error {
+			if from == "one@v" {
+				return &SMTPError{Code: 451, EnhancedCode: EnhancedCode{4, 3, 0}, Message: "later"}
+			}
+			return nil
+		}
+	}
+	s, lg := verifServer(be)
+	s.EnableSMTPUTF8, s.EnableBINARYMIME, s.EnableDSN = true, true, true
+	s.AllowInsecureAuth = true
+	vc, _, _ := verifServe(s, []byte("EHLO c\r\n"+first+"\r\n"+second+"\r\n"), io.EOF)
+	reps, wf := verifParseReplies(vc.out)
+	verifAssert(wf && len(reps) == 4 && lg.lines == 0, "C11.twice-replies")
+	if !wf || len(reps) != 4 {
+		return
+	}
+	verifObserve("c11twice", first, second, how, reps[2].code, reps[3].code)
+	verifAssert(reps[3].code == 250, "C11.twice-second-mail-accepted")
+	var got *MailOptions
+	n := 0
+	for i, e := range be.trace {
+		if e.kind == "Mail" && e.arg == "two@v" {
+			n++
+			k := 0
+			for _, e2 := range be.trace[:i] {
+				if e2.kind == "Mail" {
+					k++
+				}
+			}
+			if be.lastSession != nil && k < len(be.lastSession.mailOpts) {
+				got = be.lastSession.mailOpts[k]
+			}
+		}
+	}
+	verifAssert(n == 1 && got != nil, "C11.twice-second-mail-called-once")
+	if got == nil {
+		return
+	}
+	want := MailOptions{}
+	switch p3 {
+	case 0:
+		want.Size = 10
+	case 1:
+		want.Body = Body8BitMIME
+	case 2:
+		want.UTF8 = true
+	case 3:
+		want.Return = DSNReturnHeaders
+	case 4:
+		want.EnvelopeID = "x"
+	case 6:
+		want.Body = BodyBinaryMIME
+	}
+	verifAssert(got.Size == want.Size && got.Body == want.Body && got.UTF8 == want.UTF8 && got.RequireTLS == want.RequireTLS && got.Return == want.Return && got.EnvelopeID == want.EnvelopeID, "C11.twice-unset-fields-zero")
+	if p3 == 5 {
+		verifAssert(got.Auth != nil && *got.Auth == "", "C11.twice-own-auth")
+	} else {
+		verifAssert(got.Auth == nil, "C11.twice-unset-auth-nil")
+	}
+	verifReach("C11.twice-end")
+}
